@@ -24,6 +24,8 @@ type txWorld struct {
 	conn    int
 	queries []*sqlair.Query
 	kinds   []int
+	nilctx  []bool
+	shaped  bool // every query of this script uses the shape-dependent statement
 	pos     int
 	viol    func(prop, name, detail string)
 }
@@ -32,6 +34,23 @@ var txStmts = []*sqlair.Statement{
 	sqlair.MustPrepare("UPDATE person SET name = $Person.name WHERE id = $Person.id", Person{}),
 	sqlair.MustPrepare("SELECT &Person.* FROM person WHERE id = $Person.id", Person{}),
 	sqlair.MustPrepare("INSERT INTO person (*) VALUES ($Person.*)", Person{}),
+	// a statement whose SQL depends on the argument shape (slice length)
+	sqlair.MustPrepare("SELECT &Person.* FROM person WHERE id IN ($IntSlice[:])", Person{}, IntSlice{}),
+}
+
+// the context the transaction is begun with: TX.Query must not inherit it (a nil context given to
+// TX.Query behaves as context.Background())
+const beginMarker = 999
+
+func txArgs(kind int, r *rng) []any {
+	if kind == 3 {
+		sl := IntSlice{}
+		for i := 0; i < 1+r.intn(3); i++ {
+			sl = append(sl, 40+i)
+		}
+		return []any{sl}
+	}
+	return []any{Person{ID: 7, Name: "n"}}
 }
 
 func newTxWorld(r *rng, viol func(prop, name, detail string)) *txWorld {
@@ -40,10 +59,17 @@ func newTxWorld(r *rng, viol func(prop, name, detail string)) *txWorld {
 	// some statements are run on the DB first so that they are cached
 	for i, st := range txStmts {
 		if r.chance(1, 2) {
-			w.db.Query(context.Background(), st, Person{ID: i + 1, Name: "pre"}).Run()
+			if i == 3 {
+				var ps []Person
+				w.db.Query(context.Background(), st, txArgs(3, r)...).GetAll(&ps)
+			} else {
+				w.db.Query(context.Background(), st, Person{ID: i + 1, Name: "pre"}).Run()
+			}
 		}
 	}
-	tx, err := w.db.Begin(context.Background(), nil)
+	bctx, cancel := context.WithTimeout(context.WithValue(context.Background(), markerKey, beginMarker), time.Hour)
+	_ = cancel
+	tx, err := w.db.Begin(bctx, nil)
 	if err != nil {
 		panic(err)
 	}
@@ -68,10 +94,21 @@ func (w *txWorld) events(marker int) []string {
 		switch ev.Kind {
 		case "exec", "query":
 			out = append(out, "X"+same)
+			// C09: the driver statement that is executed was prepared for exactly this call's SQL:
+			// as many placeholders as arguments
+			if n := strings.Count(ev.SQL, "@sqlair_"); n != len(ev.Args) {
+				w.viol("C09", "tx-executed-a-statement-prepared-for-another-shape", fmt.Sprintf("%d arguments for %q", len(ev.Args), ev.SQL))
+			}
+			if marker == -1 {
+				// the query was built with a nil context: the driver must see context.Background()
+				if ev.CtxMarker != nil || ev.Deadline {
+					w.viol("C20", "nil-context-is-not-background", fmt.Sprintf("marker %v deadline %v", ev.CtxMarker, ev.Deadline))
+				}
+			}
 			if same == "!" {
 				w.viol("C12", "tx-statement-on-other-connection", fmt.Sprintf("%s on conn %d, tx conn %d", ev.SQL, ev.Conn, w.conn))
 			}
-			if marker != 0 {
+			if marker > 0 {
 				if m, _ := ev.CtxMarker.(int); m != marker {
 					w.viol("C20", "tx-execution-without-callers-context", fmt.Sprintf("marker %v want %d", ev.CtxMarker, marker))
 				}
@@ -103,23 +140,47 @@ func (w *txWorld) exec(op string, r *rng) string {
 	switch {
 	case op == "q":
 		kind := r.intn(len(txStmts))
+		if w.shaped {
+			kind = 3
+		}
 		marker := 100 + len(w.queries)
-		ctx := context.WithValue(context.Background(), markerKey, marker)
-		w.queries = append(w.queries, w.tx.Query(ctx, txStmts[kind], Person{ID: 7, Name: "n"}))
+		var ctx context.Context
+		isNil := r.chance(1, 4)
+		if !isNil {
+			ctx = context.WithValue(context.Background(), markerKey, marker)
+		}
+		args := txArgs(kind, r)
+		if kind == 3 && r.chance(2, 3) {
+			// meanwhile the shaped statement is run on the DB itself with this very shape: the cache entry
+			// now holds this shape, whatever shape the transaction used before
+			var ps []Person
+			w.db.Query(context.Background(), txStmts[3], args...).GetAll(&ps)
+			w.pos = len(w.f.log())
+		} else if r.chance(1, 6) {
+			var ps []Person
+			w.db.Query(context.Background(), txStmts[3], txArgs(3, r)...).GetAll(&ps)
+			w.pos = len(w.f.log())
+		}
+		w.queries = append(w.queries, w.tx.Query(ctx, txStmts[kind], args...))
 		w.kinds = append(w.kinds, kind)
+		w.nilctx = append(w.nilctx, isNil)
 		return fmt.Sprintf("q%d", len(w.queries)-1)
 	case scan(op, "(run %d)", &k):
 		if k >= len(w.queries) {
 			return "?"
 		}
 		var err error
-		if w.kinds[k] == 1 {
+		if w.kinds[k] == 1 || w.kinds[k] == 3 {
 			var ps []Person
 			err = w.queries[k].GetAll(&ps)
 		} else {
 			err = w.queries[k].Run()
 		}
-		evs := w.events(100 + k)
+		mk := 100 + k
+		if w.nilctx[k] {
+			mk = -1
+		}
+		evs := w.events(mk)
 		if len(evs) > 1 {
 			w.viol("C05", "statement-sent-to-the-driver-more-than-once", strings.Join(evs, "."))
 			evs = evs[:1]
@@ -291,6 +352,7 @@ func cmdTx(args []string) int {
 		currentCase.Store(req)
 		caseStart.Store(time.Now().UnixNano())
 		w := newTxWorld(r, func(prop, name, detail string) { addViol(violation{prop, name, hx(req), detail}) })
+		w.shaped = i%4 == 3
 		var outs []string
 		for _, op := range ops {
 			outs = append(outs, w.exec(op, r))
